@@ -47,7 +47,8 @@ class Prop(PropBase):
             scale = {"Hz": 1e9, "kHz": 1e6, "MHz": 1e3, "GHz": 1.0}
             f = round(rng.uniform(0.1, 10) * scale[fu], 6)
             r = f if rng.random() < 0.1 and fu == ru else round(rng.uniform(0.1, 10) * scale[ru], 6)
-            yield {"op": "law", "DM": dm, "f": [f, fu], "r": [r, ru], "rate": [round(rng.uniform(1, 1000), 3), su]}
+            yield {"op": "law", "DM": dm, "f": [f, fu], "r": [r, ru], "rate": [round(rng.uniform(1, 1000), 3), su],
+                   "dmunit": rng.choice(["default", "default", "pc/m3", "si"])}
         for _ in range(350 if quick else 9000):
             cls = rng.choice(FCLASSES)
             n = rng.choice([1, 2, 3, 4, 5, 8, 9])
@@ -62,7 +63,8 @@ class Prop(PropBase):
             target = rng.choice([0.4, 0.5, 1.5, 2.5, 3.0, L / 3, L - 1, L, L + 3.5, rng.uniform(0, L + 5)])
             yield {"op": "incoh", "cls": cls, "n": n, "L": L, "rate": rate_hz, "cf": cf_hz, "bw": bw_hz,
                    "al": rng.choice(["bottom", "center", "top"]), "ref": ref, "target": target,
-                   "sign": rng.choice([1, -1]), "t0": rng.choice(sigs.T0S + [None]), "extra": rng.choice([0, 0, 2])}
+                   "sign": rng.choice([1, -1]), "t0": rng.choice(sigs.T0S + [None]), "extra": rng.choice([0, 0, 2]),
+                   "dmunit": rng.choice(["default", "default", "default", "pc/m3", "si"])}
 
     # ------------------------------------------------------------------ real code
     def _signal(self, case):
@@ -87,10 +89,21 @@ class Prop(PropBase):
             span = abs(float(pb.DM(1.0).sample_delay(z.min_freq, z.max_freq, z.sample_rate))) or 1.0
         return case["sign"] * case["target"] / span
 
+    def _DM(self, value, case):
+        """the same physical dispersion measure, held in the default unit, in pc/m^3 or in SI units"""
+        pb, u = self.pb, self.u
+        DM = pb.DM(value)
+        how = case.get("dmunit", "default")
+        if how == "pc/m3":
+            return DM.to(u.pc / u.m**3)
+        if how == "si":
+            return DM.si
+        return DM
+
     def run_code(self, case):
         pb, np, u = self.pb, self.np, self.u
         if case["op"] == "law":
-            DM = pb.DM(case["DM"])
+            DM = self._DM(case["DM"], case)
             f = case["f"][0] * u.Unit(case["f"][1])
             r = case["r"][0] * u.Unit(case["r"][1])
             rate = case["rate"][0] * u.Unit(case["rate"][1])
@@ -105,7 +118,7 @@ class Prop(PropBase):
         z = self._signal(case)
         ref = self._ref(case, z)
         dmv = self._dm(case, z, ref)
-        DM = pb.DM(dmv)
+        DM = self._DM(dmv, case)
         delays = DM.sample_delay(z.channel_freqs, z.center_freq if ref is None else ref, z.sample_rate)
         out = {"delays": [X.rat(X.frac(float(d))) for d in np.atleast_1d(delays)], "dm": dmv}
         try:
